@@ -332,7 +332,7 @@ fn osc(rng: &mut Rng, flavor: Flavor, out: &mut Vec<u8>) {
     }
     // now and then a payload beyond the parser's buffer limits (1 KiB OSC buffer, 16 parameters)
     if rng.chance(1, 50) {
-        let n = *rng.pick(&[1000usize, 1023, 1024, 1025, 1100, 2100]);
+        let n = *rng.pick(&[1000usize, 1023, 1024, 1025, 1100, 2100, 4100, 5000, 12000]);
         for _ in 0..n {
             out.push(b'a' + rng.below(26) as u8);
         }
@@ -448,7 +448,9 @@ fn raw_bytes(rng: &mut Rng, out: &mut Vec<u8>) {
 fn token(rng: &mut Rng, kind: Kind, flavor: Flavor, out: &mut Vec<u8>) {
     match kind {
         Kind::Ascii => {
-            let n = rng.range(1, 12);
+            // very rarely one very long contiguous printable run (thresholds such as 32 KiB / 64 KiB
+            // on a single run)
+            let n = if rng.chance(1, 3000) { *rng.pick(&[1500usize, 9000, 33_000, 66_000, 69_000]) } else { rng.range(1, 12) };
             for _ in 0..n {
                 out.push(0x20 + rng.below(0x5f) as u8);
             }
